@@ -57,7 +57,10 @@ class P(Prop):
                     c["ps"][0] = c["bsfc"][rng.randrange(len(c["bsfc"]))][0] * rated
             elif st == "genset":
                 c.update({"bsfc": gen_bsfc(rng), "gen_eff": gen_curve(rng, lo=56), "rect": gen_curve(rng, lo=60) if rng.random() < 0.35 else None,
-                          "eng_rated": rated * Fraction(rng.choice([9, 10, 11]), 10)})
+                          "eng_rated": rated * Fraction(rng.choice([9, 10, 11]), 10),
+                          "rect_rated": rated * rng.choice([1, 1, Fraction(5, 4), Fraction(3, 4), Fraction(3, 2)])})   # rectifier rated unlike the generator
+                if c["rect"]:
+                    c["ps"][0] = Fraction(rng.randint(1, 10), 10) * rated       # a load at which the combined curve is tabulated
             elif st == "geared":
                 c.update({"bsfc": gen_bsfc(rng), "gear": gen_curve(rng, lo=56)})
             elif st == "fuelcell":
@@ -67,8 +70,15 @@ class P(Prop):
                 loads = sorted(rng.sample([Fraction(i, 8) for i in range(1, 9)], k))
                 tot = [l * rated for l in loads]
                 gt = [t * Fraction(rng.randint(36, 52), 64) for t in tot]
+                st_ = [t - g for t, g in zip(tot, gt)]
+                if rng.random() < 0.4:         # the curves given in another order than ascending load (e.g. data-sheet order 100 % ... 25 %)
+                    order = list(range(k))
+                    rng.shuffle(order)
+                    loads, gt, st_ = [loads[i] for i in order], [gt[i] for i in order], [st_[i] for i in order]
                 c.update({"ceff": gen_curve(rng, lo=20, hi=36), "coges": rng.random() < 0.5, "gen_eff": gen_curve(rng, lo=58),
-                          "split": None if rng.random() < 0.3 else {"loads": loads, "gt": gt, "st": [t - g for t, g in zip(tot, gt)]}})
+                          "split": None if rng.random() < 0.3 else {"loads": loads, "gt": gt, "st": st_}})
+                if c["split"] and not c["coges"]:
+                    c["ps"][0] = rng.choice(loads) * rated                      # an output exactly at a curve point
             else:
                 c.update({"kind": rng.choice(["genset", "fuelcell", "main_engine", "generator"]),
                           "dt": [Fraction(rng.randint(1, 40) * 15) for _ in range(n)], "scalar": False, "ps": ps,
@@ -115,7 +125,8 @@ class P(Prop):
                                           power_type=TypePower.POWER_SOURCE, switchboard_id=1, eff_curve=np_curve(case["gen_eff"]))
                     rect = None
                     if case["rect"]:
-                        rect = ElectricComponent(type_=TypeComponent.RECTIFIER, name="r", rated_power=r, eff_curve=np_curve(case["rect"]), switchboard_id=1)
+                        rect = ElectricComponent(type_=TypeComponent.RECTIFIER, name="r", rated_power=float(case.get("rect_rated", case["rated"])),
+                                                 eff_curve=np_curve(case["rect"]), switchboard_id=1)
                     gs = Genset("gs", eng, gen, rect)
                     rp = gs.get_fuel_cons_load_bsfc_from_power_out_generator_kw(power=arr)
                     return {"eng_power": lst(gs.aux_engine.power_output), "fuel": lst(rp.engine.fuel_flow_rate_kg_per_s.fuels[0].mass_or_mass_fraction),
@@ -191,7 +202,8 @@ class P(Prop):
                     f"{core.coq_fl_list(obs['fuel'])} {core.coq_fl_list(obs['pilot'])}")
         if st == "genset":
             if case["rect"]:
-                stages = core.coq_list([f"({r}, {coq_curve(case['gen_eff'])})", f"({r}, {coq_curve(case['rect'])})"])
+                stages = core.coq_list([f"({r}, {coq_curve(case['gen_eff'])})",
+                                        f"({core.coq_q(case.get('rect_rated', case['rated']))}, {coq_curve(case['rect'])})"])
                 gen = f"(prepare {r} (serial_fn (mk_stages {stages})))"
             else:
                 gen = prep(case["rated"], case["gen_eff"])
@@ -214,7 +226,8 @@ class P(Prop):
             share = "None"
             if case["split"]:
                 s = case["split"]
-                share = "(Some (Points " + core.coq_list([f"({core.coq_q(l)}, {core.coq_q(g / (g + t))})" for l, g, t in zip(s["loads"], s["gt"], s["st"])]) + "))"
+                share = "(Some (Points " + core.coq_list([f"({core.coq_q(l)}, {core.coq_q(g / (g + t))})"
+                                                          for l, g, t in sorted(zip(s["loads"], s["gt"], s["st"]))]) + "))"
             pre = ""
             if case["coges"]:
                 pre = f"check_genset_power {prep(case['rated'], case['gen_eff'])} false {ps} {core.coq_fl_list(obs['cogas_power'])} && "
@@ -243,6 +256,25 @@ class P(Prop):
                     for p, b in zip(case["ps"], obs["bsfc"]):
                         if p == l * case["rated"] and abs(b - float(v)) > 1e-9 * float(v):
                             return f"at the given curve point load {float(l)} the consumption is {b}, the point says {float(v)}"
+        if st == "genset" and case["rect"]:
+            from scipy.interpolate import PchipInterpolator
+
+            def eff_fn(c):
+                if len(c) == 1:
+                    v = float(c[0] if not isinstance(c[0], (list, tuple)) else c[0][1])
+                    return lambda x: v
+                pts = sorted((float(a), float(b)) for a, b in c)
+                f = PchipInterpolator([a for a, _ in pts], [b for _, b in pts])
+                return lambda x: float(min(1.0, max(0.01, f(x))))
+            eg, er = eff_fn(case["gen_eff"]), eff_fn(case["rect"])
+            ratio = float(case["rated"] / case.get("rect_rated", case["rated"]))
+            for p, e in zip(case["ps"], obs["eng_power"]):
+                l = p / case["rated"]
+                if 0 < l <= 1 and (l * 10).denominator == 1:
+                    want = float(p) / min(1.0, max(0.01, eg(float(l)) * er(float(l) * ratio)))
+                    if abs(e - want) > 1e-6 * max(1.0, abs(want)):
+                        return (f"genset with rectifier at {float(p)} kW (generator load {float(l)}, rectifier load {float(l) * ratio}): engine power {e} kW, "
+                                f"power / (generator efficiency x rectifier efficiency) = {want} kW")
         if st == "geared":
             if obs["delivered_after"] != ps:
                 return f"asking for the run point changed the delivered power series: {ps} -> {obs['delivered_after']}"
